@@ -107,6 +107,14 @@ func c10RenderComment(c comments.Comment) string {
 }
 
 func c10ReaderOp(r *hx.Run, lines []string, lastNL bool) {
+	// an empty last line without a newline is not a line at all: normalise the encoding
+	if !lastNL && len(lines) > 0 && lines[len(lines)-1] == "" {
+		lines = lines[:len(lines)-1]
+		lastNL = true
+		if len(lines) == 0 {
+			return
+		}
+	}
 	content := strings.Join(lines, "\n")
 	if lastNL {
 		content += "\n"
